@@ -694,6 +694,171 @@ pub fn default_context_texts() -> Vec<(String, String)> {
     v
 }
 
+
+/// EDITING-STATE family (1): balanced skeletons.  The text cut at a token boundary, every bracket that is open at
+/// the cut closed again in order (what an editor with auto-closing brackets holds while one types).
+pub fn balanced_states(text: &str, stride: usize, phase: usize) -> Vec<String> {
+    let toks = crude_tokens(text);
+    let mut v = vec![];
+    let mut stack: Vec<char> = vec![];
+    let mut in_str: Option<char> = None;
+    for (k, &(a, b)) in toks.iter().enumerate() {
+        let t = &text[a..b];
+        let c = t.chars().next().unwrap_or(' ');
+        match in_str {
+            Some(q) => {
+                if c == q {
+                    in_str = None;
+                }
+            }
+            None => match c {
+                '"' | '\'' => in_str = Some(c),
+                '(' => stack.push(')'),
+                '[' => stack.push(']'),
+                '{' => stack.push('}'),
+                ')' | ']' | '}' => {
+                    if stack.last() == Some(&c) {
+                        stack.pop();
+                    }
+                }
+                _ => {}
+            },
+        }
+        if (k + phase) % stride.max(1) == 0 {
+            let mut s = text[..b].to_string();
+            if let Some(q) = in_str {
+                s.push(q);
+            }
+            for (i, c) in stack.iter().rev().enumerate() {
+                // a block closes on a line of its own, parentheses and brackets in place
+                if *c == '}' {
+                    s.push_str(if i == 0 { " }" } else { "\n}" });
+                } else {
+                    s.push(*c);
+                }
+            }
+            s.push('\n');
+            v.push(s);
+        }
+    }
+    v
+}
+
+/// EDITING-STATE family (2): one identifier occurrence (declaration and uses independently) truncated to a proper
+/// prefix — in particular to its first letter, which for a capitalised type name is a TYPE VARIABLE.
+pub fn identifier_truncations(text: &str, all_lengths: bool, stride: usize, phase: usize) -> Vec<String> {
+    let toks = crude_tokens(text);
+    let mut v = vec![];
+    let mut n = 0;
+    for &(a, b) in &toks {
+        let t = &text[a..b];
+        let first = t.chars().next().unwrap_or(' ');
+        if !(first.is_alphabetic() || first == '_') || t.chars().count() < 2 || !t.is_ascii() {
+            continue;
+        }
+        n += 1;
+        // capitalised names always (they become type variables), the others by stride
+        if !first.is_uppercase() && (n + phase) % stride.max(1) != 0 {
+            continue;
+        }
+        let lens: Vec<usize> = if all_lengths { (1..t.len()).collect() } else { vec![1, (t.len() / 2).max(1)] };
+        for l in lens {
+            v.push(format!("{}{}{}", &text[..a], &t[..l], &text[b..]));
+        }
+    }
+    v.dedup();
+    v
+}
+
+/// EDITING-STATE family (3): top-level items reordered and duplicated (items = runs of lines starting at column 0
+/// with balanced brackets).
+pub fn item_shuffles(rng: &mut Rng, text: &str, n: usize) -> Vec<String> {
+    let mut items: Vec<String> = vec![];
+    let mut cur = String::new();
+    let mut depth: i32 = 0;
+    for line in text.split_inclusive('\n') {
+        let starts_item = depth <= 0 && !line.starts_with(' ') && !line.starts_with('\t') && !line.starts_with('}') && !line.trim().is_empty();
+        if starts_item && !cur.trim().is_empty() {
+            items.push(std::mem::take(&mut cur));
+        }
+        cur.push_str(line);
+        for c in line.chars() {
+            match c {
+                '(' | '[' | '{' => depth += 1,
+                ')' | ']' | '}' => depth -= 1,
+                _ => {}
+            }
+        }
+    }
+    if !cur.trim().is_empty() {
+        items.push(cur);
+    }
+    let mut v = vec![];
+    if items.len() < 2 {
+        return v;
+    }
+    for _ in 0..n {
+        let mut it = items.clone();
+        let i = rng.below(it.len() as u64) as usize;
+        let j = rng.below(it.len() as u64) as usize;
+        match rng.below(4) {
+            0 => it.swap(i, j),
+            1 => {
+                let x = it[i].clone();
+                it.insert(j, x);
+            }
+            2 => {
+                let x = it.remove(i);
+                it.push(x);
+            }
+            _ => it.reverse(),
+        }
+        v.push(it.concat());
+    }
+    v
+}
+
+/// EDITING-STATE family (4): `implement` / `extend` headers over {type variable, unknown name, builtin, instantiated
+/// generic, generic, function type, tuple, wildcard, user type} x every prelude interface (with and without output
+/// types; empty body, partial body, full body) x uses that reach the implementation (for, `!`, `?`, ==, <, +, ..,
+/// println, indexing).
+pub fn impl_header_texts() -> Vec<(String, String)> {
+    let targets = ["T", "C", "Nope", "int", "string", "array<int>", "array<T>", "option<int>", "int -> int", "(int, int)", "_", "Cd", "Bx<int>", "Bx<T>", "Cd<int>"];
+    let ifaces: [(&str, &str, &str); 11] = [
+        ("ToString", "", "  fn str(s) -> string { \"cd\" }\n"),
+        ("Clone", "", "  fn clone(x) { x }\n"),
+        ("Equal", "", "  fn equal(a, b) -> bool { true }\n"),
+        ("Hash", "", "  fn hash(a) -> int { 1 }\n"),
+        ("Ord", "  fn less_than(a, b) -> bool { true }\n", "  fn less_than(a, b) -> bool { true }\n  fn less_than_or_equal(a, b) -> bool { true }\n  fn greater_than(a, b) -> bool { false }\n  fn greater_than_or_equal(a, b) -> bool { false }\n"),
+        ("Num", "  fn add(a, b) { a }\n", "  fn add(a, b) { a }\n  fn subtract(a, b) { a }\n  fn multiply(a, b) { a }\n  fn divide(a, b) { a }\n  fn power(a, b) { a }\n"),
+        ("Unwrap", "", "  fn unwrap(self) -> int { 1 }\n"),
+        ("Try", "  fn from_residual(r: int) { r }\n", "  fn branch(self) -> ControlFlow<int, int> { .Continue(1) }\n  fn from_residual(r: int) { r }\n"),
+        ("Index", "  fn index_get(self, index: int) -> int { 1 }\n", "  fn index_get(self, index: int) -> int { 1 }\n  fn index_set(self, index: int, val: int) -> void { }\n"),
+        ("Iterable", "", "  fn make_iterator(self) -> CdIt { CdIt(3) }\n"),
+        ("Iterator", "", "  fn next(self) -> option<int> { option.none }\n"),
+    ];
+    let pre = "type Cd = { n: int }\ntype CdIt = { k: int }\ntype Bx<T> = { v: T }\nimplement Iterator for CdIt {\n  fn next(self) -> option<int> { option.none }\n}\n";
+    let uses = "let c = Cd(3)\nfor x in c {\n  println(x)\n}\nfor y in [1, 2] {\n  println(y)\n}\nfn tq() -> option<int> {\n  let a = Cd(1)?\n  let b = option.some(2)?\n  option.some(Cd(2)!)\n}\nprintln(c == c)\nprintln(c < c)\nprintln(c + c)\nprintln(c .. \"s\")\nprintln(c)\nprintln(c[0])\nprintln(1 == 1)\nprintln([1] .. \"s\")\nlet u = option.some(1)!\n";
+    let mut v: Vec<(String, String)> = vec![];
+    for t in targets {
+        for (iname, partial, full) in ifaces {
+            for (bn, body) in [("empty", ""), ("partial", partial), ("full", full)] {
+                if bn == "partial" && partial.is_empty() {
+                    continue;
+                }
+                let tn = t.replace(|c: char| !c.is_alphanumeric(), "_");
+                v.push((format!("implhdr:{tn}:{iname}:{bn}"), format!("{pre}implement {iname} for {t} {{\n{body}}}\n{uses}")));
+                v.push((format!("implhdr:{tn}:{iname}:{bn}:no-use"), format!("implement {iname} for {t} {{\n{body}}}\n")));
+            }
+        }
+        let tn = t.replace(|c: char| !c.is_alphanumeric(), "_");
+        v.push((format!("implhdr:{tn}:extend"), format!("{pre}extend {t} {{\n  fn twice(self) -> int {{ 2 }}\n}}\n{uses}println(c.twice())\nprintln(1.twice())\n")));
+        v.push((format!("implhdr:{tn}:extend-empty"), format!("{pre}extend {t} {{\n}}\n{uses}")));
+        v.push((format!("implhdr:{tn}:unknown-iface"), format!("{pre}implement Nothere for {t} {{\n  fn m(self) -> int {{ 1 }}\n}}\n{uses}")));
+    }
+    v
+}
+
 /// crude token boundaries, independent of the real lexer: runs of word characters, single other characters
 pub fn crude_tokens(s: &str) -> Vec<(usize, usize)> {
     let mut v = vec![];
